@@ -296,6 +296,10 @@ def judge_resp(sim, ev, rec):
             if only_md or K:
                 hits.append(("C03", "untrusted-key." + what,
                              "valid_under=%s K=%s only_md=%s" % (valid_under, K, only_md), enc))
+                # for the SP such a signature does not verify either: C02's "every signature that is present
+                # verifies" is about the keys the SP may use, not about some key that happens to fit
+                hits.append(("C02", "untrusted-key." + what,
+                             "valid_under=%s K=%s only_md=%s" % (valid_under, K, only_md), enc))
             elif emb not in valid_under:
                 hits.append(("C03", "embedded-mismatch." + what,
                              "valid_under=%s embedded=%s" % (valid_under, emb), enc))
@@ -605,6 +609,20 @@ def judge_answer(sim, ev, rec):
     rec["facts"] = F
     if p.get("error_status"):
         return
+    # ---- C08: what an un-faulted provider signs must verify under its own key as emitted (the order in which
+    # nested elements are signed matters: a signature added inside an already signed element breaks the outer one)
+    if not tf and not p.get("handover") and rec.get("signing_key"):
+        from engines.fedsim import signature_truth, RESP_NODE, ASSERT_NODE
+        emitted = []
+        if m["signed"] and m["id"]:
+            emitted.append(("response", RESP_NODE, m["id"]))
+        for a_ in m["assertions"]:
+            if a_["signed"] and a_["id"] and not (p.get("dialect") or {}).get("advice_issuer"):
+                emitted.append(("assertion", ASSERT_NODE, a_["id"]))
+        for what_, node_, id_ in emitted:
+            sim.count("oracle.C08.emitted-signature-checked")
+            if not signature_truth(xml, node_, id_, {rec["signing_key"]}):
+                add(sim, rec, "C08", "emitted-signature-does-not-verify", "%s id=%s key=%s" % (what_, id_, rec["signing_key"]))
     # ---- C20: a protection that was asked for and whose tool run produced nothing
     faulted_ops = set(f["op"] for f in tf if f.get("ord", "all") == "all")
     root = ET.fromstring(xml)
@@ -651,8 +669,10 @@ def judge_answer(sim, ev, rec):
         import html as _html
         decodings.append(_html.unescape(decodings[-1]))
         ms = []
-        if (p.get("advice") or p.get("pefim")) and not asked_protect["encrypt"]:
-            # only the attribute assertion in the Advice is confidential, the main assertion travels in clear
+        plain_twin = (p.get("dialect") or {}).get("plain_next_to_encrypted") is not None
+        if plain_twin or ((p.get("advice") or p.get("pefim")) and not asked_protect["encrypt"]):
+            # only the attribute values are confidential here: the main assertion (PEFIM without encrypt_assertion)
+            # or a second, deliberately plain assertion about the same subject travels in clear
             for vals in (asked.get("identity") or {}).values():
                 ms.extend(v for v in vals if len(v) >= 8)
         else:
@@ -664,7 +684,7 @@ def judge_answer(sim, ev, rec):
         if leaked:
             for cp in conf_props:
                 add(sim, rec, cp, "plaintext-leak", "markers in clear: %r" % leaked[:3])
-        if not (p.get("advice") or p.get("pefim")):
+        if not (p.get("advice") or p.get("pefim") or plain_twin):
             names = list((asked.get("identity") or {}).keys())
             leaked_names = [n for n in names if any(('FriendlyName="%s"' % n) in d for d in decodings)]
             if leaked_names:
